@@ -47,3 +47,35 @@ def judge(chk, traces, name="traces"):
         raise MachineryError(f"{len(traces)} traces but {len(verdicts)} verdicts")
     chk.traces += len(traces)
     return verdicts
+
+
+def repo_test_traces(chk, calls):
+    """P2': run the repository's own test-suite with the recorder plugin and validate every find_answer / solve it made"""
+    import os
+    import subprocess
+    from .common import REPO, VERIF
+    out = chk.dir / "repo_tests.ndjson"
+    env = dict(os.environ, CSPUZ_VERIF_RECORD=str(out), PYTHONPATH=f"{REPO}:{VERIF}")
+    subprocess.run(["/venv/bin/python", "-m", "pytest", "-q", "-p", "no:cacheprovider", "-p", "harness.pytest_recorder",
+                    "--timeout=900", "tests"], cwd=str(REPO), env=env, capture_output=True, text=True, timeout=1800)
+    recs = []
+    if out.exists():
+        for line in open(out):
+            r = json.loads(line)
+            if r.get("status") == "recorder-failed":
+                raise MachineryError("pytest recorder failed: " + r.get("exc", ""))
+            if r["call"] in calls and r["status"] == "ok":
+                graph_op = any(c["op"].startswith("GRAPH_") for c in r["prog"]["cons"])
+                r["small"] = r["product"] <= 3000 and not graph_op
+                r["t"] = len(recs)
+                recs.append(r)
+    if not recs:
+        return [], {}
+    path = chk.dir / "repo_tests_judged.ndjson"
+    write_ndjson(path, recs)
+    res = run_tlc("Trace_Program", "Trace_Program", workdir=chk.dir, env={"TRACE_FILE": str(path)}, timeout=1800, workers=4)
+    chk.add_tlc(res)
+    if len(res.records) != len(recs):
+        raise MachineryError(f"{len(recs)} recorded calls but {len(res.records)} verdicts")
+    chk.traces += len(recs)
+    return recs, {v["t"]: v for v in res.records}
